@@ -168,6 +168,8 @@ pub struct World {
     pub tamper_accepted: Vec<Option<(u64, String)>>,
     /// per session: number of calls that returned Err
     pub errs: Vec<u64>,
+    /// per session: an out-of-phase call (turn / finished / one-way) has been made
+    pub misuse: Vec<bool>,
 }
 
 fn ecode(e: &Error) -> u32 {
@@ -285,6 +287,7 @@ impl World {
             harness_nonce_call: false,
             tamper_accepted: vec![None; (cfg.nodes.len() + 1) / 2],
             errs: vec![0; (cfg.nodes.len() + 1) / 2],
+            misuse: vec![false; (cfg.nodes.len() + 1) / 2],
             cfg,
         };
         for i in 0..w.cfg.nodes.len() {
@@ -556,7 +559,8 @@ impl World {
             self.flag(&["C11"], "indicator-initiator", &format!("{what}/{}", node.st.phase()), "is_initiator differs from role built");
         }
         if let (Some((t, f)), Some(sh)) = (tf, &node.shadow) {
-            if t != sh.my_turn() || f != sh.finished() {
+            // whose turn it is is only defined by the pattern while messages remain
+            if (t != sh.my_turn() && !sh.finished()) || f != sh.finished() {
                 let site = self.site_hs(node, what);
                 self.flag(
                     &["C11", "C02"],
@@ -877,8 +881,14 @@ impl World {
             self.faults_in_run += 1;
             for w in &whys {
                 self.stats.fault(match w {
-                    Why::Turn => "out-of-turn-write",
-                    Why::Finished => "write-after-finish",
+                    Why::Turn => {
+                        self.misuse[i / 2] = true;
+                        "out-of-turn-write"
+                    },
+                    Why::Finished => {
+                        self.misuse[i / 2] = true;
+                        "write-after-finish"
+                    },
                     Why::MissingPsk => "missing-psk",
                     Why::Oversize => "oversize-payload",
                     Why::ShortBuf => "undersized-output-buffer",
@@ -978,7 +988,11 @@ impl World {
                             if has_e && drawn.len() >= 32 && mbytes.len() >= 32 && out.len() >= 32 && mbytes[..shadow.proto.pub_len().min(mbytes.len())] != out[..shadow.proto.pub_len().min(out.len())] {
                                 self.flag(&["C06", "C01"], "ephemeral-not-from-rng", &site, "ephemeral public key in the message is not derived from the bytes drawn during the call");
                             } else {
-                                self.flag(&["C01", "C07", "C20"], "write-bytes-differ-from-model", &format!("{site}/{fdiff}"), &format!("name={} len={n}", shadow.proto.name));
+                                let mut props = vec!["C01", "C07", "C20"];
+                                if self.misuse[i / 2] {
+                                    props.push("C11");
+                                }
+                                self.flag(&props, "write-bytes-differ-from-model", &format!("{site}/{fdiff}"), &format!("name={} len={n}", shadow.proto.name));
                             }
                         }
                         if enc_flag != model_payload_enc(&fields) {
@@ -997,12 +1011,15 @@ impl World {
                             self.inbox[Self::peer(i)].push_back(hidx);
                         }
                         self.wire.push(WireEv { node: i as u8, write: true, bytes: out[..n.min(out.len())].to_vec() });
-                        if model.finished() && after.3 != model.h {
-                            self.flag(&["C01"], "handshake-hash-differs-from-model", &site, "");
+                        if after.3 != model.h {
+                            self.flag(&["C01"], "handshake-hash-differs-from-model", &site, if model.finished() { "final" } else { "intermediate" });
                         }
-                        if shadow.proto.name.len() == shadow.proto.hash.hash_len() {
-                            self.stats.probe("name-len-eq-hashlen");
-                        } else if shadow.proto.name.len() > shadow.proto.hash.hash_len() {
+                        let (nl, hl) = (shadow.proto.name.len(), shadow.proto.hash.hash_len());
+                        if nl == hl {
+                            self.stats.probe(if hl == 64 { "name-len-eq-hashlen-64" } else { "name-len-eq-hashlen-32" });
+                        } else if nl == hl + 1 {
+                            self.stats.probe(if hl == 64 { "name-len-eq-hashlen-64-plus-1" } else { "name-len-eq-hashlen-32-plus-1" });
+                        } else if nl > hl {
                             self.stats.probe("name-len-gt-hashlen");
                         }
                         node.shadow = Some(model);
@@ -1034,6 +1051,9 @@ impl World {
                             let mut props = vec!["C02", "C14"];
                             if prev_err {
                                 props.push("C07");
+                            }
+                            if self.misuse[i / 2] {
+                                props.push("C11");
                             }
                             self.flag(&props, "write-fails-but-must-succeed", &site, &format!("{e:?} buf={buflen} predicted={predicted} payload={}", payload.len()));
                         },
@@ -1363,8 +1383,14 @@ impl World {
         }
         for w in &whys {
             match w {
-                Why::Turn => self.stats.fault("out-of-turn-read"),
-                Why::Finished => self.stats.fault("read-after-finish"),
+                Why::Turn => {
+                    self.misuse[i / 2] = true;
+                    self.stats.fault("out-of-turn-read")
+                },
+                Why::Finished => {
+                    self.misuse[i / 2] = true;
+                    self.stats.fault("read-after-finish")
+                },
                 Why::MissingPsk => self.stats.fault("missing-psk"),
                 _ => {},
             }
@@ -1450,8 +1476,8 @@ impl World {
                     self.flag(&["C02", "C01", "C03"], "read-payload-differs", &site, "payload returned differs from the model's");
                 }
                 self.wire.push(WireEv { node: i as u8, write: false, bytes: out[..n.min(out.len())].to_vec() });
-                if model.finished() && after.3 != model.h {
-                    self.flag(&["C01", "C02"], "handshake-hash-differs-from-model", &site, "");
+                if after.3 != model.h {
+                    self.flag(&["C01", "C02"], "handshake-hash-differs-from-model", &site, if model.finished() { "final" } else { "intermediate" });
                 }
                 let genuine_next = match meta {
                     Some(m) => !altered && m.from as usize == Self::peer(i) && matches!(m.phase, Phase::Hs { idx } if idx == shadow.idx),
@@ -1498,6 +1524,9 @@ impl World {
                     let mut props = vec!["C02", "C01"];
                     if self.epilogue || prev_err {
                         props.extend_from_slice(&["C07", "C03"]);
+                    }
+                    if self.misuse[i / 2] {
+                        props.push("C11");
                     }
                     self.flag(&props, "read-fails-but-must-succeed", &site, &format!("{e:?} len={} out={outlen} src={srckind}", bytes.len()));
                 } else {
@@ -1774,10 +1803,9 @@ impl World {
                 Ok(r) => {
                     let expect_ok = key.len() == 32 && (idx as usize) < 10;
                     self.trace.write_u64(r.is_ok() as u64);
-                    if r.is_ok() != expect_ok {
-                        self.flag(&["C10", "C12"], "set-psk-result", &format!("set_psk/idx{}/len{}", idx.min(11), key.len()), &format!("{r:?}"));
-                    }
-                    if r.is_ok() {
+                    // which argument combinations set_psk accepts is not part of any property
+                    // (C10 only demands Ok-or-Err); the shadow follows a well-formed success
+                    if r.is_ok() && expect_ok {
                         self.stats.probe("late-psk-set");
                         if let Some(sh) = node.shadow.as_mut() {
                             let mut k = [0u8; 32];
@@ -1935,6 +1963,7 @@ impl World {
                 RekeyKind::ManualI(id) => t.rekey_manually(Some(&Self::manual_key(session, 0, id)), None),
                 RekeyKind::ManualR(id) if id % 2 == 0 => t.rekey_responder_manually(&Self::manual_key(session, 1, id)),
                 RekeyKind::ManualR(id) => t.rekey_manually(None, Some(&Self::manual_key(session, 1, id))),
+                RekeyKind::ManualBoth(id) => t.rekey_manually(Some(&Self::manual_key(session, 0, id)), Some(&Self::manual_key(session, 1, id))),
             })),
             St::Sl(t) => Some(guarded(|| match which {
                 RekeyKind::Outgoing => t.rekey_outgoing(),
@@ -1943,6 +1972,7 @@ impl World {
                 RekeyKind::ManualI(id) => t.rekey_initiator_manually(&Self::manual_key(session, 0, id)),
                 RekeyKind::ManualR(id) if id % 2 == 0 => t.rekey_manually(None, Some(&Self::manual_key(session, 1, id))),
                 RekeyKind::ManualR(id) => t.rekey_responder_manually(&Self::manual_key(session, 1, id)),
+                RekeyKind::ManualBoth(id) => t.rekey_manually(Some(&Self::manual_key(session, 0, id)), Some(&Self::manual_key(session, 1, id))),
             })),
             _ => None,
         };
@@ -1972,6 +2002,10 @@ impl World {
                         },
                         RekeyKind::ManualI(id) => trm.keys[0] = Self::manual_key(session, 0, id),
                         RekeyKind::ManualR(id) => trm.keys[1] = Self::manual_key(session, 1, id),
+                        RekeyKind::ManualBoth(id) => {
+                            trm.keys[0] = Self::manual_key(session, 0, id);
+                            trm.keys[1] = Self::manual_key(session, 1, id);
+                        },
                     }
                 }
                 let after = match &node.st {
